@@ -1,17 +1,264 @@
-import NumbatModel.Model.Core
-import NumbatModel.Model.VM
+import NumbatModel.Lemmas.VMOrder
 /-!
 # C09 — compiled programs compute what their source means
 
-(first stage: the operand encoding round trip; the compiler-correctness theorems follow)
+Property theorems (helper lemmas are in `Lemmas/VM*.lean`). All theorems are about the definitions the driver
+executes: the byte-level compiler `VM.compileExpr`, the machine `VM.step`/`VM.runN` (`Model/VM.lean`) and the
+reference evaluator `Core.eval` (`Model/Core.lean`); they hold for every number type `ν` and every value-level
+semantics `S : Sem ν`.
+
+* `compile_correct` — for every expression that compiles, in every compiler state that agrees with the evaluator's
+  environment (`Ctx`), with the machine standing in front of the compiled bytes and a stack laid out as the
+  environment says (`Layout`): if the reference evaluator gives a value, the machine reaches the end of the code with
+  exactly that value pushed; if it gives a run-time error, the machine stops with the same error. Covers jump
+  patching, local / global / `ans` / function-reference resolution with shadowing, operators, lists, structs,
+  strings, direct calls with frames, `where` variables, recursion, calls of function values, foreign calls.
+  By induction on the evaluator's fuel.
+* `call_correct` — the call protocol (frame push, `where` variables as further locals, `Return` dropping the frame's
+  slots).
+* `conditional_bytes` — the exact bytes of a compiled conditional after both patches.
+* `struct_field_order`, `list_order`, `joinstring_order` — the short order facts.
 -/
 namespace NumbatModel.VM
 open NumbatModel.Core
 
-/-- A u16 operand written by `push_u16` is read back by `read_u16`, wherever it stands in the code. -/
-theorem readU16_encU16 (pre post : List UInt8) (n : Nat) (h : n < 65536) :
-    readU16 (pre ++ encU16 n ++ post) pre.length = some n := by
-  simp [readU16, encU16, List.getElem?_append_right]
-  omega
+variable {ν : Type}
+
+/-- **Compiler correctness for expressions.** -/
+theorem compile_correct (S : Sem ν) {P : Prog ν} {T : Table ν} {G : List (List Name)} (hP : ProgOK P T G)
+    (fuel : Nat) (e : Expr ν) (ρ : Env ν) (cs cs' : CS ν) (frag : List UInt8) (m : Machine ν) (f : Frame)
+    (fs : List Frame)
+    (hcomp : compileExpr e cs = .ok cs') (hcode : cs'.code = cs.code ++ frag)
+    (hsize : cs'.code.length < 65536) (hfit : fitsE e = true)
+    (hctx : Ctx T G ρ cs) (hpos : Pos P m f fs frag) (hconst : cs'.constants <+: P.constants)
+    (hlay : Layout ρ f.fp m.stack) (hlast : m.last = ρ.last) :
+    (∀ v, eval S T fuel ρ e = .ok v →
+      ∃ n, runN S P n m = .next (m.at f fs (f.ip + frag.length) (m.stack ++ [v]))) ∧
+    (∀ err, eval S T fuel ρ e = .err err → ∃ n, runN S P n m = .err err) :=
+  exprOK_all hP fuel e ρ cs cs' frag m f fs hcomp hcode hsize hfit hctx hpos hconst hlay hlast
+
+/-- The code a successful compilation appends is determined by the two states: `compile_correct` applies to it. -/
+theorem compile_appends (e : Expr ν) (cs cs' : CS ν) (hcomp : compileExpr e cs = .ok cs')
+    (hsize : cs'.code.length < 65536) : ∃ frag, cs'.code = cs.code ++ frag ∧ cs.constants <+: cs'.constants := by
+  have g := compileExpr_good e cs cs' hcomp
+  obtain ⟨frag, h⟩ := g.pre hsize
+  obtain ⟨k, hk⟩ := g.consts
+  exact ⟨frag, h, ⟨k, hk.symm⟩⟩
+
+/-- **Call protocol.** With the arguments `vs` on top of the stack `s` and the frame of function `i` pushed
+    (`fp` at the first argument), the machine computes what `applyClosure` (parameters bound to the arguments,
+    `where` variables in order, then the body) computes, and returns to the caller's frame with the arguments
+    replaced by the result. -/
+theorem call_correct (S : Sem ν) {P : Prog ν} {T : Table ν} {G : List (List Name)} (hP : ProgOK P T G)
+    (fuel : Nat) {i : Nat} {c : Closure ν} (hc : T.funs[i]? = some c)
+    (vs : List (Value ν)) (globals : List (List Name × Value ν)) (last : Option (Value ν))
+    (m : Machine ν) (f' : Frame) (fs : List Frame) (s : List (Value ν))
+    (hframes : m.frames = { fn := i + 1, ip := 0, fp := s.length } :: f' :: fs)
+    (hstack : m.stack = s ++ vs)
+    (hglob : ∃ rest, s = globals.map Prod.snd ++ rest)
+    (hgn : globals.map Prod.fst <+: G)
+    (hlast : m.last = last) :
+    (∀ v, applyClosure (eval S T fuel) c vs globals last = .ok v →
+      ∃ n, runN S P n m = .next { m with frames := f' :: fs, stack := s ++ [v] }) ∧
+    (∀ err, applyClosure (eval S T fuel) c vs globals last = .err err → ∃ n, runN S P n m = .err err) :=
+  apply_ok hP (exprOK_all hP fuel) hc vs globals last m f' fs s hframes hstack hglob hgn hlast
+
+/-- **Jump patching.** The code of `if c then t else e`, compiled from state `cs`, is the code of `c`,
+    `JumpIfFalse` over the `then` code and the following `Jump` (offset `|then| + 3`), the `then` code, `Jump` over
+    the `else` code (offset `|else|`), the `else` code — the two `0xffff` placeholders are gone. -/
+theorem conditional_bytes (c t e : Expr ν) (cs cs' : CS ν) (hcomp : compileExpr (.cond c t e) cs = .ok cs')
+    (hsize : cs'.code.length < 65536) :
+    ∃ (cs1 cs3 cs6 : CS ν) (fc ft fe : List UInt8),
+      compileExpr c cs = .ok cs1 ∧ cs1.code = cs.code ++ fc ∧
+      compileExpr t (cs1.emit .jumpIfFalse [0xffff]) = .ok cs3 ∧
+      cs3.code = cs1.code ++ encode .jumpIfFalse [0xffff] ++ ft ∧
+      compileExpr e (condPatch1 cs1 cs3) = .ok cs6 ∧ cs6.code = (condPatch1 cs1 cs3).code ++ fe ∧
+      cs'.code = cs.code ++ fc ++ encode .jumpIfFalse [ft.length + 3] ++ ft ++ encode .jump [fe.length] ++ fe := by
+  simp only [compileExpr, Res.bind_eq_ok] at hcomp
+  obtain ⟨cs1, h1, cs3, h3, cs6, h6, h7⟩ := hcomp
+  injection h7 with h7; subst h7
+  have hl6 : cs6.code.length < 65536 := by simpa [patchU16_length] using hsize
+  obtain ⟨fc, ft, fe, hc1, hc3, _, hc6, hfin⟩ :=
+    cond_shape (compileExpr_good c cs cs1 h1) (compileExpr_good t _ cs3 h3) (compileExpr_good e _ cs6 h6) hl6
+  exact ⟨cs1, cs3, cs6, fc, ft, fe, h1, hc1, h3, hc3, h6, hc6, by rw [hfin, hc1]⟩
+
+/-! ### order facts -/
+
+/-- **Struct field order.** Whatever the order in the source, the compiler visits the fields of a struct literal
+    by *descending* definition index (all of them, each once), `BuildStructInstance` then pops them so that the
+    value holds them by *ascending* definition index, and `AccessStructField i` yields the `i`-th of these. -/
+theorem struct_field_order (S : Sem ν) (info : StructInfo) (fields : List (Field ν)) :
+    -- visiting order: a rearrangement of the fields, sorted by descending definition index
+    (∀ fl, fl ∈ fieldOrder info Field.name fields ↔ fl ∈ fields) ∧
+    (fieldOrder info Field.name fields).length = fields.length ∧
+    (fieldOrder info Field.name fields).Pairwise
+      (fun x y => (fieldIdx info y.name).getD 0 ≤ (fieldIdx info x.name).getD 0) ∧
+    -- the machine: values pushed in visiting order are stored in the opposite order, and read by index
+    (∀ (P : Prog ν) (m : Machine ν) (f : Frame) (fs : List Frame) (idx n : Nat) (s vs : List (Value ν))
+       (info' : StructInfo),
+       Pos P m f fs (encode .buildStructInstance [idx, n]) → idx < 65536 → n < 65536 →
+       P.structInfos[idx]? = some info' → m.stack = s ++ vs → vs.length = n →
+       step S P m = .next (m.at f fs (f.ip + 5) (s ++ [.struct info' vs.reverse]))) ∧
+    (∀ (P : Prog ν) (m : Machine ν) (f : Frame) (fs : List Frame) (idx : Nat) (s vs : List (Value ν))
+       (info' : StructInfo) (v : Value ν),
+       Pos P m f fs (encode .accessStructField [idx]) → idx < 65536 →
+       m.stack = s ++ [.struct info' vs] → vs[idx]? = some v →
+       step S P m = .next (m.at f fs (f.ip + 3) (s ++ [v]))) := by
+  refine ⟨fun fl => mem_fieldOrder _ _ _ _, length_fieldOrder _ _ _, ?_, ?_, ?_⟩
+  · simp only [fieldOrder, List.pairwise_reverse]
+    exact pairwise_sortByKey _ _
+  · intro P m f fs idx n s vs info' hp hi hn hinfo hs hl
+    exact step_buildStruct hp hi hn hinfo hs hl
+  · intro P m f fs idx s vs info' v hp hi hs hv
+    exact step_accessField hp hi hs hv
+
+/-- **List order.** The elements of a list literal are evaluated left to right and `BuildList n` turns the `n`
+    topmost stack entries into the list in the same (bottom-to-top = source) order. -/
+theorem list_order (S : Sem ν) (T : Table ν) (n : Nat) (ρ : Env ν) (es : List (Expr ν)) :
+    eval S T (n + 1) ρ (.list es) = (evalList (eval S T n ρ) es).bind (fun vs => .ok (.list vs)) ∧
+    (∀ (P : Prog ν) (m : Machine ν) (f : Frame) (fs : List Frame) (k : Nat) (s vs : List (Value ν)),
+       Pos P m f fs (encode .buildList [k]) → k < 65536 → m.stack = s ++ vs → vs.length = k →
+       step S P m = .next (m.at f fs (f.ip + 3) (s ++ [.list vs]))) :=
+  ⟨rfl, fun _ _ _ _ _ _ _ hp hk hs hl => step_buildList hp hk hs hl⟩
+
+/-- **String part order.** If the parts of a string (fixed parts and interpolated values with their format
+    specifiers, in source order) have the texts `texts`, then `JoinString` — which pops the parts from the top of
+    the stack, i.e. last part first, and prepends each — leaves exactly `t₁ ++ t₂ ++ … ++ tₙ` on the stack, and so
+    does the reference evaluator. -/
+theorem joinstring_order (S : Sem ν) (pvs : List (Value ν × Option (Option String))) (texts : List String)
+    (hfixed : FixedStr pvs) (htexts : pvs.map (partText S) = texts.map Res.ok) :
+    joinParts S pvs = .ok (concatTexts texts) ∧
+    (∀ s : List (Value ν), joinLoop S pvs.length (s ++ partsStack pvs) "" = .ok (s, concatTexts texts)) ∧
+    (∀ (P : Prog ν) (m : Machine ν) (f : Frame) (fs : List Frame) (s : List (Value ν)),
+       Pos P m f fs (encode .joinString [pvs.length]) → pvs.length < 65536 → m.stack = s ++ partsStack pvs →
+       step S P m = .next (m.at f fs (f.ip + 3) (s ++ [.str (concatTexts texts)]))) := by
+  have hj := joinParts_texts S pvs texts htexts
+  have hl : ∀ s : List (Value ν), joinLoop S pvs.length (s ++ partsStack pvs) "" = .ok (s, concatTexts texts) := by
+    intro s
+    have := (joinLoop_parts S pvs 0 s "" hfixed).1 _ hj
+    simpa [joinLoop] using this
+  refine ⟨hj, hl, ?_⟩
+  intro P m f fs s hp hn hs
+  exact step_joinString_ok hp hn (by rw [hs]; exact hl s)
 
 end NumbatModel.VM
+
+namespace NumbatModel.VM.Example
+open NumbatModel.Core NumbatModel.VM
+
+/-! A concrete instance: `fn inc(x) = x + 1` compiled into chunk 1, and the expression `inc(2)` at top level. -/
+
+def sem : Sem Nat :=
+  { arith := fun op x y => match op with
+      | .add => .ok (x + y) | .sub => .ok (x - y) | .mul => .ok (x * y)
+      | .div => if y = 0 then .error .divisionByZero else .ok (x / y)
+      | _ => .error .quantityError,
+    neg := id, fact := fun _ x => .ok x, cmp := fun x y => some (compare x y), eq := fun x y => x == y,
+    fmt := toString, ffi := fun _ _ => .panic "none", fmtSpec := fun _ _ => .error .invalidFormatSpecifiers }
+
+def decl : FunDecl Nat :=
+  { name := "inc", params := ["x"], wheres := [], body := .bin (.arith .add) (.ident "x") (.num 1) }
+def closure : Closure Nat :=
+  { decl := decl, static := { nglob := 0, nfuns := 1, fnNames := [], ffi := [] }, gnames := [] }
+def table : Table Nat := { funs := [closure], ffiAll := [], structs := [] }
+/-- compiler state at the start of the body of `inc` -/
+def cs0 : CS Nat :=
+  { code := [], constants := [], nCallArgs := 0, scopeCur := [["x"]], scopeGlob := [], functions := [],
+    chunkNames := ["<main>", "inc"], ffiNames := [], structNames := [] }
+def cs1 : CS Nat :=
+  { cs0 with code := [3, 0, 0, 0, 0, 0, 8, 37], constants := [.scalar 1] }
+/-- compiler state at top level after `fn inc` -/
+def csMain : CS Nat :=
+  { code := [], constants := [.scalar 1], nCallArgs := 0, scopeCur := [], scopeGlob := [],
+    functions := [("inc", false)], chunkNames := ["<main>", "inc"], ffiNames := [], structNames := [] }
+def expr : Expr Nat := .call "inc" [.num 2]
+def frag : List UInt8 := [0, 1, 0, 28, 1, 0, 1, 0]
+def csMain' : CS Nat := { csMain with code := frag, constants := [.scalar 1, .scalar 2] }
+def prog : Prog Nat :=
+  { chunks := [⟨"<main>", frag ++ [37]⟩, ⟨"inc", [3, 0, 0, 0, 0, 0, 8, 37]⟩],
+    constants := [.scalar 1, .scalar 2], structInfos := [], ffiNames := [] }
+def env : Env Nat :=
+  { locals := [], globals := [], last := none,
+    static := { nglob := 0, nfuns := 1, fnNames := [("inc", false)], ffi := [] } }
+def frame : Frame := { fn := 0, ip := 0, fp := 0 }
+def machine : Machine Nat := { frames := [frame], stack := [], last := none, out := [], result := none }
+
+theorem body_compiles : compileFnBody decl cs0 = .ok cs1 := rfl
+theorem expr_compiles : compileExpr expr csMain = .ok csMain' := rfl
+
+theorem progOK : ProgOK prog table [] where
+  names := rfl
+  notMain := by intro c hc; simp [table] at hc; subst hc; decide
+  ffi := rfl
+  structs := rfl
+  chunksLt := by decide
+  ffiLt := by decide
+  structsLt := by decide
+  fns := by
+    intro i c h
+    cases i with
+    | zero =>
+      simp [table] at h; subst h
+      refine ⟨rfl, rfl, ⟨[], rfl⟩, ⟨[], rfl⟩, cs0, cs1, ⟨rfl, rfl, rfl, rfl, rfl, rfl, ⟨[], rfl⟩⟩, body_compiles, rfl,
+        ⟨[.scalar 2], rfl⟩, by decide, by decide, by decide, rfl, ?_⟩
+      intro d hd; simp [closure, decl] at hd
+    | succ j => simp [table] at h
+
+theorem ctx : Ctx table [] env csMain where
+  cur := rfl
+  glob := rfl
+  functions := rfl
+  ffi := rfl
+  ffiPre := ⟨[], rfl⟩
+  chunks := rfl
+  nfuns := by decide
+  structs := ⟨[], rfl⟩
+  curLt := by decide
+  globLt := by decide
+  gnames := ⟨[], rfl⟩
+  nglob := by decide
+
+theorem pos : Pos prog machine frame [] frag :=
+  ⟨rfl, ⟨_, rfl, ⟨[37], rfl⟩⟩⟩
+
+theorem layout : Layout env frame.fp machine.stack :=
+  ⟨⟨[], [], rfl, rfl⟩, ⟨[], rfl⟩⟩
+
+theorem value : eval sem table 4 env expr = .ok (.num 3) := rfl
+
+/-- the hypotheses of `compile_correct` are satisfiable, and its conclusion is what one expects -/
+example : ∃ n, runN sem prog n machine = .next (machine.at frame [] 8 [.num 3]) :=
+  (compile_correct sem progOK 4 expr env csMain csMain' frag machine frame [] expr_compiles rfl (by decide) rfl
+    ctx pos ⟨[], rfl⟩ layout rfl).1 (.num 3) value
+
+/-- `call_correct`: the frame of `inc` pushed over the argument 2 returns 3 to the caller -/
+example : ∃ n, runN sem prog n
+      { machine with frames := [{ fn := 1, ip := 0, fp := 0 }, { frame with ip := 8 }], stack := [.num 2] }
+    = .next { machine with frames := [{ frame with ip := 8 }], stack := [.num 3] } :=
+  (call_correct sem progOK 3 (i := 0) (c := closure) rfl [.num 2] [] none
+    { machine with frames := [{ fn := 1, ip := 0, fp := 0 }, { frame with ip := 8 }], stack := [.num 2] }
+    { frame with ip := 8 } [] [] rfl rfl ⟨[], rfl⟩ ⟨[], rfl⟩ rfl).1 (.num 3) rfl
+
+/-- `conditional_bytes`: `if true then 1 else 2` compiles to
+    `LoadConstant 0; JumpIfFalse 6; LoadConstant 1; Jump 3; LoadConstant 2` -/
+example : ∃ cs', compileExpr (.cond (.bool true) (.num 1) (.num 2)) cs0 = .ok cs' ∧
+    cs'.code = [0, 0, 0, 26, 6, 0, 0, 1, 0, 27, 3, 0, 0, 2, 0] := ⟨_, rfl, rfl⟩
+
+/-- `struct_field_order`: for `struct P { a, b, c }` the literal `P { c: …, a: …, b: … }` is visited as c, b, a -/
+example : (fieldOrder ⟨"P", ["a", "b", "c"]⟩ Field.name
+    [Field.mk "c" (.num 3), Field.mk "a" (.num 1), Field.mk "b" (.num 2)]).map Field.name = ["c", "b", "a"] := by
+  decide
+
+/-- `joinstring_order`: the parts `"a"`, `{1}`, `"b"` give `"a1b"` -/
+example : joinParts sem [(.str "a", none), (.num 1, some none), (.str "b", none)] = .ok "a1b" := by
+  rfl
+
+example : FixedStr (ν := Nat) [(.str "a", none), (.num 1, some none), (.str "b", none)] := by
+  intro p hp hn
+  simp at hp
+  rcases hp with rfl | rfl | rfl
+  · exact ⟨"a", rfl⟩
+  · cases hn
+  · exact ⟨"b", rfl⟩
+
+end NumbatModel.VM.Example
